@@ -29,14 +29,31 @@ def run_history(hist, args, payload=gitskin.default_payload, skin=None, env=None
     return data, texts, r
 
 
-def run_event(run_id, hist, texts, r, cfg, intern=None):
+def normalise_line(b: bytes) -> bytes:
+    """The changes C04 permits on a passed-through line: CR removal (a trailing CR, possibly followed
+    only by escape sequences) and replacement of invalid UTF-8."""
+    i = b.rfind(b"\r")
+    if i >= 0 and lexer.strip_ansi(b[i + 1:]) == b"":
+        b = b[:i] + b[i + 1:]
+    try:
+        b.decode("utf-8")
+    except UnicodeDecodeError:
+        b = b.decode("utf-8", "replace").encode()
+    return b
+
+
+def run_event(run_id, hist, texts, r, cfg, intern=None, skin=None, data=None):
     """Mechanical projection of one run into a Trace_Stream event."""
     intern = intern or gitskin.Interner()
     lines = gitskin.line_events(hist, texts, intern)
+    if data is not None:
+        raw = data.split(b"\n")[:-1]
+        for ln, b in zip(lines, raw):
+            ln["bid"] = intern(normalise_line(b))
     rows_b, tail = lexer.split_rows(r.out)
-    rows = [gitskin.parse_row(b, intern) for b in rows_b]
+    rows = [gitskin.parse_row(b, intern, skin) for b in rows_b]
     if tail:
-        rows.append(gitskin.parse_row(tail, intern))
+        rows.append(gitskin.parse_row(tail, intern, skin))
     return {
         "run": run_id, "cfg": cfg, "lines": lines, "rows": [gitskin.public(x) for x in rows],
         "code": r.code if not r.timed_out else 999,
@@ -91,7 +108,7 @@ class Plan:
 
     def __init__(self, name, hists, args=(), cfg=None, payload=gitskin.default_payload, skin=None, env=None):
         self.name, self.hists, self.args, self.payload, self.skin, self.env = name, hists, list(args), payload, skin, env
-        self.cfg = {"keep": False, "tabs": 8, "colorOnly": False, "buf": 32}
+        self.cfg = {"keep": False, "tabs": 8, "colorOnly": False, "buf": 32, "hhFile": True}
         if cfg:
             self.cfg.update(cfg)
 
@@ -106,7 +123,7 @@ def execute_plans(plans):
     def one(ij):
         i, (p, h) = ij
         data, texts, r = run_history(h, p.args, payload=p.payload, skin=p.skin, env=p.env)
-        ev, rows = run_event(i, h, texts, r, p.cfg)
+        ev, rows = run_event(i, h, texts, r, p.cfg, skin=p.skin or {}, data=data)
         return (p, h, data, r, ev, rows)
 
     return core.pmap(one, list(enumerate(jobs)))
